@@ -256,6 +256,12 @@ func (e *Emitter) emitScriptStatement(scriptStmt *ast.ScriptStatement, textLabel
 			if !ok {
 				return "", errors.New("could not emit 'break' statement because its return point is unknown")
 			}
+			if !curChunk.isLastStatement(i) {
+				// Statements after the 'break' are unreachable, but they can still contain
+				// labels. Keep them in their own chunk so those labels aren't eliminated.
+				chunkCounter++
+				remainingChunks = append(remainingChunks, curChunk.createPostLogicChunk(chunkCounter, i))
+			}
 			completeChunk := &chunk{
 				id:             curChunk.id,
 				returnID:       curChunk.returnID,
